@@ -18,21 +18,21 @@ var commonAssumptions = []string{
 var plans = map[string]plan{
 	"C08": {
 		Level:    "exploration",
-		Rule:     "case = (requested type, input bytes) run through all 5 skipping facilities (7 configurations); inputs: bounded-exhaustive strings over a 15-symbol grammar alphabet, mutated valid encodings (truncate/substitute/size-window/splice/insert/delete), huge size fields, nesting 1..70 per container kind and through every entry position, size fields 0x7fffffff..0xffffffff really followed by that many (untouched, mapped) bytes, a follow-up call on the same decoder after every rejection. Non-trivial iff the oracle rejects the input or accepts it with nesting >= 2; distinct by (type, bytes). Also: one SkipDecoder whose reader is also read directly between two Next calls (values and raw bytes alternating on bytes-backed, stream-backed and foreign readers, stream possibly ending in a cut-short value); the stream-backed skippers run over standard-library readers (bytes.Reader, strings.Reader, bufio, iotest, Limit/Multi/Section) a quarter of the time.",
+		Rule:     "case = (requested type, input bytes) run through all 5 skipping facilities (7 configurations); inputs: bounded-exhaustive strings over a 15-symbol grammar alphabet, mutated valid encodings (truncate/substitute/size-window/splice/insert/delete), huge size fields, nesting 1..70 per container kind and through every entry position, size fields 0x7fffffff..0xffffffff really followed by that many (untouched, mapped) bytes, a follow-up call on the same decoder after every rejection. Non-trivial iff the oracle rejects the input or accepts it with nesting >= 2; distinct by (type, bytes). Also: one SkipDecoder whose reader is also read directly between two Next calls (values and raw bytes alternating on bytes-backed, stream-backed and foreign readers, stream possibly ending in a cut-short value); the stream-backed skippers run over standard-library readers (bytes.Reader, strings.Reader, bufio, iotest, Limit/Multi/Section) a quarter of the time. A struct walked field by field on ReaderSkipDecoder: headers with the exported SkipN, values with Next.",
 		Required: []string{"oracle-accept judged", "oracle-reject judged", "nesting>=65 cases"},
 		Quick:    []job{{"plain", 8}},
 		Thorough: []job{{"gcstress", 4}, {"plain", 16}, {"race", 4}, {"go126", 4}, {"fuzz", 3}},
 	},
 	"C02": {
 		Level:    "exploration",
-		Rule:     "case = 1..3 well-formed values (generated typed trees) back-to-back + 0..64 trailing bytes on ONE instance of each skipper, under one of 6 fragmentation schedules, optionally with the final data delivered together with io.EOF; plus the full container x key-type x value-type x size grid under all schedules, nesting 1..63 for every container kind, strings around the 4096/8192 boundaries, multi-megabyte values incl. release-after-huge-value histories with co-tenants of the buffer pool. Non-trivial iff a value has nesting >= 2, or is a container > 20 bytes, or is > 4096 bytes; distinct by (value shapes, bytes, trailing length, schedule, eof mode).",
+		Rule:     "case = 1..3 well-formed values (generated typed trees) back-to-back + 0..64 trailing bytes on ONE instance of each skipper, under one of 6 fragmentation schedules, optionally with the final data delivered together with io.EOF; plus the full container x key-type x value-type x size grid under all schedules, nesting 1..63 for every container kind, strings around the 4096/8192 boundaries, multi-megabyte values incl. release-after-huge-value histories with co-tenants of the buffer pool. Non-trivial iff a value has nesting >= 2, or is a container > 20 bytes, or is > 4096 bytes; distinct by (value shapes, bytes, trailing length, schedule, eof mode). Histories of 4-16 values on one stream-backed reader that is released after about every second value (strings up to 70000 bytes); ReaderSkipDecoder over a source that is drained, polled (io.EOF) and refilled.",
 		Required: []string{"values skipped", "reader-skip-decoder values", "grid combinations", "long-string cases"},
 		Quick:    []job{{"plain", 8}},
 		Thorough: []job{{"gcstress", 4}, {"plain", 16}, {"race", 4}},
 	},
 	"C03": {
 		Level:    "exploration",
-		Rule:     "case = input bytes run through every buffer-based decoding entry point (23 + Binary.Skip/BytesSkipDecoder for several requested type bytes) at two guard-page placements (input ends at / starts after a PROT_NONE page). Inputs: all strings of length <= 2, grammar-alphabet strings, mutations/truncations/boundary substitutions of valid encodings of every shape (values, Base/BaseResp/exception structs, messages, unknown-field sequences, TTHeader frames), huge size fields. Non-trivial iff length >= 1 and (mutated valid encoding or alphabet string of length >= 3); distinct by bytes. Also: every third case additionally places the input in write-protected pages (a store into the input is a fault, reported as decoder-wrote-into-its-input); thorough tier: 2^31 and 2^32 calls of ReadString/ReadBinary with the span cache on (call-counters-wrap).",
+		Rule:     "case = input bytes run through every buffer-based decoding entry point (23 + Binary.Skip/BytesSkipDecoder for several requested type bytes) at two guard-page placements (input ends at / starts after a PROT_NONE page). Inputs: all strings of length <= 2, grammar-alphabet strings, mutations/truncations/boundary substitutions of valid encodings of every shape (values, Base/BaseResp/exception structs, messages, unknown-field sequences, TTHeader frames), huge size fields. Non-trivial iff length >= 1 and (mutated valid encoding or alphabet string of length >= 3); distinct by bytes. Also: every third case additionally places the input in write-protected pages (a store into the input is a fault, reported as decoder-wrote-into-its-input); thorough tier: 2^31 and 2^32 calls of ReadString/ReadBinary with the span cache on (call-counters-wrap). Wide values: 1.5 million sibling fields / elements at one level under a 32 MiB stack cap.",
 		Required: []string{"guarded decoder calls", "decoder successes", "decoder errors", "full truncation sweeps"},
 		Quick:    []job{{"plain", 8}},
 		Thorough: []job{{"gcstress", 4}, {"plain", 16}, {"asan", 8}, {"race", 4}, {"go126", 4}, {"fuzz", 3}},
@@ -60,14 +60,14 @@ var plans = map[string]plan{
 	},
 	"C01": {
 		Level:    "exploration",
-		Rule:     "case = sequence of 1..40 codec values (bool, byte, i16, i32, i64, double, string, binary, field begin/stop, map/list/set begin with sizes up to 2^31-1, message begin) written by the in-place writer (into an exact-length canary-margined buffer), the appending writer (onto a random prefix/capacity) and the stream writer (over a recording io.Writer and over a bytes writer), each compared byte-for-byte with an independent big-endian encoder and with the advertised length; then decoded by the buffer reader at running offsets (input in a guard-page arena) and by the stream reader over a hostile source (6 fragmentation schedules, zero-byte reads, EOF with data) and over a bytes reader. Exhaustive over all bool/i8/i16 (thorough: all 2^32 i32), boundary string lengths (thorough: every length 0..9000). Non-trivial iff >= 2 kinds, or a string > 4000 bytes, or a fragmenting schedule; distinct by (values, schedule). Also: the bytes-backed writer under the stream writer starts from targets with initial contents / spare capacity.",
+		Rule:     "case = sequence of 1..40 codec values (bool, byte, i16, i32, i64, double, string, binary, field begin/stop, map/list/set begin with sizes up to 2^31-1, message begin) written by the in-place writer (into an exact-length canary-margined buffer), the appending writer (onto a random prefix/capacity) and the stream writer (over a recording io.Writer and over a bytes writer), each compared byte-for-byte with an independent big-endian encoder and with the advertised length; then decoded by the buffer reader at running offsets (input in a guard-page arena) and by the stream reader over a hostile source (6 fragmentation schedules, zero-byte reads, EOF with data) and over a bytes reader. Exhaustive over all bool/i8/i16 (thorough: all 2^32 i32), boundary string lengths (thorough: every length 0..9000). Non-trivial iff >= 2 kinds, or a string > 4000 bytes, or a fragmenting schedule; distinct by (values, schedule). Also: the bytes-backed writer under the stream writer starts from targets with initial contents / spare capacity. The no-copy length / writer functions without a direct writer are judged like the plain pair; the stream writer also runs over a foreign bufiox.Writer that keeps WriteBinary payloads by reference and reads nothing before Flush.",
 		Required: []string{"values round-tripped", "stream bytes compared", "string-length cases"},
 		Quick:    []job{{"plain", 8}},
 		Thorough: []job{{"gcstress", 4}, {"plain", 16}, {"race", 4}},
 	},
 	"C06": {
 		Level:    "exploration",
-		Rule:     "case = header parameter set (flags, sequence id, protocol id incl. unsupported ones, int/str info maps of 0..200 entries with empty/binary/long keys and values, ACL-token key alone or with others) + payload length, encoded by EncodeToBytes and by Encode over a buffered writer, checked by a strict independent layout parser, decoded by an independent decoder and by the library (bytes-backed and over a hostile fragmenting source); header-info sizes swept exactly over 65536-16..65536+16 in three shapes, every padding residue, all flags (stride in quick), all 256 protocol ids, oversize keys/values/entry counts, parameters beyond 4 GiB, and a writer that refuses its k-th call for every k (Encode must fail). Non-trivial iff >= 1 info entry or size within 64 of the limit; distinct by parameter set + payload length. Also: payloads of 1-5 MiB written through the same writer before the total-length field is filled in, and frames behind more than 1 MiB of unflushed earlier bytes.",
+		Rule:     "case = header parameter set (flags, sequence id, protocol id incl. unsupported ones, int/str info maps of 0..200 entries with empty/binary/long keys and values, ACL-token key alone or with others) + payload length, encoded by EncodeToBytes and by Encode over a buffered writer, checked by a strict independent layout parser, decoded by an independent decoder and by the library (bytes-backed and over a hostile fragmenting source); header-info sizes swept exactly over 65536-16..65536+16 in three shapes, every padding residue, all flags (stride in quick), all 256 protocol ids, oversize keys/values/entry counts, parameters beyond 4 GiB, and a writer that refuses its k-th call for every k (Encode must fail). Non-trivial iff >= 1 info entry or size within 64 of the limit; distinct by parameter set + payload length. Also: payloads of 1-5 MiB written through the same writer before the total-length field is filled in, and frames behind more than 1 MiB of unflushed earlier bytes. Every frame is also encoded into a foreign zero-copy bufiox.Writer; the key dictionary holds the persistent / backward forms and near misses of the token key.",
 		Required: []string{"frames encoded", "frames round-tripped", "encode errors", "frames with padding", "size-limit cases", "frames with exactly 65536 info bytes", "unsupported-protocol frames"},
 		Quick:    []job{{"plain", 8}},
 		Thorough: []job{{"gcstress", 4}, {"plain", 16}},
@@ -81,7 +81,7 @@ var plans = map[string]plan{
 	},
 	"C07": {
 		Level:    "exploration",
-		Rule:     "case = load/reload/query history on StrMap[int], StrMap[struct] and Str2Str instances: key sets of sizes around every entry of the prime table (0..1000, thorough up to 2*10^5) with adversarial key shapes (empty key, all proper prefixes of a long key, shared prefixes/suffixes, one-bit near-duplicates, mixed and equal lengths), LoadFromMap/LoadFromSlice sequences growing and shrinking one instance, failed (length-mismatch) loads in between, never-loaded and empty maps; probes = every key, key +/- one byte, prefixes, suffixes, bit-flips, keys of earlier rounds, random strings; every answer (Get, Len, Item enumeration) compared with a Go map. Fresh instances per case give fresh hash seeds. Non-trivial iff n >= 2 or a reload or an empty/prefix key; distinct by case index (hash seeds differ per instance). Also: loads with one key twice (outside the domain: judged only when refused - a refused load changes nothing).",
+		Rule:     "case = load/reload/query history on StrMap[int], StrMap[struct] and Str2Str instances: key sets of sizes around every entry of the prime table (0..1000, thorough up to 2*10^5) with adversarial key shapes (empty key, all proper prefixes of a long key, shared prefixes/suffixes, one-bit near-duplicates, mixed and equal lengths), LoadFromMap/LoadFromSlice sequences growing and shrinking one instance, failed (length-mismatch) loads in between, never-loaded and empty maps; probes = every key, key +/- one byte, prefixes, suffixes, bit-flips, keys of earlier rounds, random strings; every answer (Get, Len, Item enumeration) compared with a Go map. Fresh instances per case give fresh hash seeds. Non-trivial iff n >= 2 or a reload or an empty/prefix key; distinct by case index (hash seeds differ per instance). Also: loads with one key twice (outside the domain: judged only when refused - a refused load changes nothing). A load that fails with a recovered panic (2^48 key bytes) is a failed load too.",
 		Required: []string{"map queries compared", "failed loads checked", "never-loaded/empty cases", "load cycles"},
 		Quick:    []job{{"plain", 8}, {"hooks", 2}},
 		Thorough: []job{{"gcstress", 4}, {"plain", 16}, {"race", 4}, {"hooks", 4}},
@@ -95,35 +95,35 @@ var plans = map[string]plan{
 	},
 	"C12": {
 		Level:    "exploration",
-		Rule:     "case = (method name of 0..70000 arbitrary bytes, message type, sequence id) through WriteMessageBegin / AppendMessageBegin / BufferWriter.WriteMessageBegin vs an independent encoder and MessageBeginLength, read back by Binary.ReadMessageBegin (guard-page arena) and BufferReader.ReadMessageBegin over a fragmenting source; all 65536 message types; all 65536 first-word high halves x 5 low halves (must be accepted iff 0x8001, else BAD_VERSION on both readers); every truncation point and negative name lengths (both readers and UnmarshalFastMsg must fail); MarshalFastMsg -> UnmarshalFastMsg round trips with BaseResp payloads; EXCEPTION messages must surface as *ApplicationException with type id and text and leave the caller's struct untouched (also when the exception body is cut at any point: an error, nothing decoded). Every case is non-trivial; distinct by its parameters. Also: every header is also read from a source holding nothing else (no Read call after its last byte was delivered); an unmarked first word in front of a well-formed header must still be a bad version for both readers and UnmarshalFastMsg.",
+		Rule:     "case = (method name of 0..70000 arbitrary bytes, message type, sequence id) through WriteMessageBegin / AppendMessageBegin / BufferWriter.WriteMessageBegin vs an independent encoder and MessageBeginLength, read back by Binary.ReadMessageBegin (guard-page arena) and BufferReader.ReadMessageBegin over a fragmenting source; all 65536 message types; all 65536 first-word high halves x 5 low halves (must be accepted iff 0x8001, else BAD_VERSION on both readers); every truncation point and negative name lengths (both readers and UnmarshalFastMsg must fail); MarshalFastMsg -> UnmarshalFastMsg round trips with BaseResp payloads; EXCEPTION messages must surface as *ApplicationException with type id and text and leave the caller's struct untouched (also when the exception body is cut at any point: an error, nothing decoded). Every case is non-trivial; distinct by its parameters. Also: every header is also read from a source holding nothing else (no Read call after its last byte was delivered); an unmarked first word in front of a well-formed header must still be a bad version for both readers and UnmarshalFastMsg. Application-defined payload structs (a linked chain with its own codec, 1..1000 levels deep, byte fields around the no-copy threshold).",
 		Required: []string{"envelopes round-tripped", "first words tried", "truncation sweeps", "messages round-tripped", "exception messages"},
 		Quick:    []job{{"plain", 8}},
 		Thorough: []job{{"gcstress", 4}, {"plain", 16}},
 	},
 	"C13": {
 		Level:    "exploration",
-		Rule:     "case = sequence of 1..5 typed fields (generated value trees of every type, nesting <= 5, any field ids, canonical booleans) encoded by the independent encoder: ConvertUnknownFields must yield exactly the generator-built expected tree (IDs, Type, KeyType/ValType only on containers, element IDs = index, doubles by bit pattern), UnknownFieldsLength must equal the byte count, WriteUnknownFields must reproduce the bytes, and the expected tree must survive write-then-convert. Plus the full 11x11 grid of (container field, following sibling) pairs inside nested structs under 4 wrappings and the container x key x value x size grid. Non-trivial iff a container is present; distinct by field trees.",
+		Rule:     "case = sequence of 1..5 typed fields (generated value trees of every type, nesting <= 5, any field ids, canonical booleans) encoded by the independent encoder: ConvertUnknownFields must yield exactly the generator-built expected tree (IDs, Type, KeyType/ValType only on containers, element IDs = index, doubles by bit pattern), UnknownFieldsLength must equal the byte count, WriteUnknownFields must reproduce the bytes, and the expected tree must survive write-then-convert. Plus the full 11x11 grid of (container field, following sibling) pairs inside nested structs under 4 wrappings and the container x key x value x size grid. Non-trivial iff a container is present; distinct by field trees. Every generated field list is also written inside a hand-built tree that refers to it three times.",
 		Required: []string{"field sequences round-tripped", "sibling-tag cases", "combo-grid cases"},
 		Quick:    []job{{"plain", 8}},
 		Thorough: []job{{"gcstress", 4}, {"plain", 16}},
 	},
 	"C15": {
 		Level:    "exploration",
-		Rule:     "case = sequence of 1..8 WriteStringNocopy/WriteBinaryNocopy calls with lengths {0,1,100,4094,4095,4096,4097,8192,12288,20000} (exhaustive over all triples) into a linear buffer that is a window of a larger block (spare capacity 0/1/64), with a recording direct writer whose pieces are spliced independently at len(buf)-remainCap and compared with the copying-path bytes from an independent encoder; returned offset + direct pieces must equal the advertised length; nil writer must be byte-identical to the copying path; Base/BaseResp with every small/large field combination (byte compare when the map has <= 1 entry, decode compare otherwise), FastMarshal. Non-trivial iff >= 1 value >= 4096 with a writer attached; distinct by (length vector, API sequence, spare, writer). Also: values of 1-3 MiB alone and between small neighbours; struct field lengths of 1500-4000 so that a map key and its value straddle the threshold together.",
+		Rule:     "case = sequence of 1..8 WriteStringNocopy/WriteBinaryNocopy calls with lengths {0,1,100,4094,4095,4096,4097,8192,12288,20000} (exhaustive over all triples) into a linear buffer that is a window of a larger block (spare capacity 0/1/64), with a recording direct writer whose pieces are spliced independently at len(buf)-remainCap and compared with the copying-path bytes from an independent encoder; returned offset + direct pieces must equal the advertised length; nil writer must be byte-identical to the copying path; Base/BaseResp with every small/large field combination (byte compare when the map has <= 1 entry, decode compare otherwise), FastMarshal. Non-trivial iff >= 1 value >= 4096 with a writer attached; distinct by (length vector, API sequence, spare, writer). Also: values of 1-3 MiB alone and between small neighbours; struct field lengths of 1500-4000 so that a map key and its value straddle the threshold together. Direct writers that are struct values; unset (nil) Base / BaseResp with a direct writer attached.",
 		Required: []string{"direct pieces spliced", "nocopy sequences", "nil-writer sequences", "struct cases"},
 		Quick:    []job{{"plain", 8}},
 		Thorough: []job{{"gcstress", 4}, {"plain", 16}},
 	},
 	"C16": {
 		Level:    "exploration",
-		Rule:     "case = run of strings/binaries decoded by thrift.Binary (lengths over every span-allocator class: 0, <128, every power of two +-1 up to 128 KiB, larger; runs of 200..800 values wrapping the 1 MiB spans) with the span cache off and on; every returned []byte is appended to and overwritten, then the input buffer is overwritten: input, siblings and snapshots must stay intact, and returned slices (incl. spare capacity) must not overlap the input; stream reader: values of a first message retained across Release, Recycle, pool reuse by a co-tenant and the decoding of a second message through a recycled BufferReader; decoded Base / ApplicationException / unknown-field trees after their input is overwritten. Non-trivial iff length >= 1; distinct by (lengths, reader kind, span-cache setting). Also: 5 MiB (thorough 24 MiB) of values of one size class (0-127, 1-16, 128-255, 1-2 KiB bytes) all kept and re-verified; 3-8 goroutines decoding one size class at once, each overwriting its own byte slices in place (also under the race detector); values decoded by other readers while one stream reader is in the middle of a value that then fails or completes.",
+		Rule:     "case = run of strings/binaries decoded by thrift.Binary (lengths over every span-allocator class: 0, <128, every power of two +-1 up to 128 KiB, larger; runs of 200..800 values wrapping the 1 MiB spans) with the span cache off and on; every returned []byte is appended to and overwritten, then the input buffer is overwritten: input, siblings and snapshots must stay intact, and returned slices (incl. spare capacity) must not overlap the input; stream reader: values of a first message retained across Release, Recycle, pool reuse by a co-tenant and the decoding of a second message through a recycled BufferReader; decoded Base / ApplicationException / unknown-field trees after their input is overwritten. Non-trivial iff length >= 1; distinct by (lengths, reader kind, span-cache setting). Also: 5 MiB (thorough 24 MiB) of values of one size class (0-127, 1-16, 128-255, 1-2 KiB bytes) all kept and re-verified; 3-8 goroutines decoding one size class at once, each overwriting its own byte slices in place (also under the race detector); values decoded by other readers while one stream reader is in the middle of a value that then fails or completes. The concurrent decoders alternate thrift.Binary and one BufferReader per value, and the cache is switched on under GOMAXPROCS(1) in half of the cases.",
 		Required: []string{"buffer-decoded values attacked", "stream-decoded values attacked", "structs attacked", "bytes decoded in runs"},
 		Quick:    []job{{"plain", 8}, {"race", 2}},
 		Thorough: []job{{"gcstress", 4}, {"plain", 16}, {"race", 4}, {"go126", 4}},
 	},
 	"C17": {
 		Level:    "exploration",
-		Rule:     "case = (entry point, malformed input) classified by the independent grammar oracle into cause sets {TRUNCATED, NEGATIVE, UNKNOWN_TYPE, DEPTH}: the error of Binary.Skip / Binary.Read* / ReadMessageBegin must be (or wrap) a *ProtocolException whose TypeId is in the accepted set (TRUNCATED, UNKNOWN_TYPE -> INVALID_DATA; NEGATIVE -> NEGATIVE_SIZE; bad first word -> BAD_VERSION; nesting >= 64 -> also DEPTH_LIMIT; simultaneous causes -> any). Inputs: grammar-alphabet strings (exhaustive), mutated encodings, negative sizes in every size position for all 11x11 element types, nesting 60..70. Stream reader: valid streams cut at every position with every injected error value (io.EOF, io.ErrUnexpectedEOF, two custom) with/after the final data: errors.Is(err, sourceErr) must hold for every Read*/Skip. Every case is a failure-class instance; distinct by (input, type). Also: stream failures after runs of 1..99 empty reads between the last data and the error.",
+		Rule:     "case = (entry point, malformed input) classified by the independent grammar oracle into cause sets {TRUNCATED, NEGATIVE, UNKNOWN_TYPE, DEPTH}: the error of Binary.Skip / Binary.Read* / ReadMessageBegin must be (or wrap) a *ProtocolException whose TypeId is in the accepted set (TRUNCATED, UNKNOWN_TYPE -> INVALID_DATA; NEGATIVE -> NEGATIVE_SIZE; bad first word -> BAD_VERSION; nesting >= 64 -> also DEPTH_LIMIT; simultaneous causes -> any). Inputs: grammar-alphabet strings (exhaustive), mutated encodings, negative sizes in every size position for all 11x11 element types, nesting 60..70. Stream reader: valid streams cut at every position with every injected error value (io.EOF, io.ErrUnexpectedEOF, two custom) with/after the final data: errors.Is(err, sourceErr) must hold for every Read*/Skip. Every case is a failure-class instance; distinct by (input, type). Also: stream failures after runs of 1..99 empty reads between the last data and the error. The stream runs release the reader between values now and then.",
 		Required: []string{"skip failures classified", "reader failures classified", "message-begin failures classified", "stream failures classified", "negative-size cases", "source-error sweeps"},
 		Quick:    []job{{"plain", 8}},
 		Thorough: []job{{"gcstress", 4}, {"plain", 16}},
